@@ -144,10 +144,10 @@ func runC08(c *core.Ctx) {
 	lists = append(lists, []string{"dA", "dA"}, []string{"p1", "p1"}, []string{"dB", "dA", "dB", "p1"}, []string{"dB", "dA2", "dA", "p2"})
 
 	payloads := map[string][]byte{
-		"empty": {},
-		"A":     append([]byte("A"), bytes.Repeat([]byte("0123456789abcdef"), 64)...), // 1025 bytes
-		"B":     append([]byte("B"), bytes.Repeat([]byte("fedcba9876543210"), 64)...),
-		"C":     append([]byte("C"), bytes.Repeat([]byte{0x00, 0xff, 0x0a, 0x0d}, 256)...),
+		"empty":  {},
+		"A":      append([]byte("A"), bytes.Repeat([]byte("0123456789abcdef"), 64)...), // 1025 bytes
+		"B":      append([]byte("B"), bytes.Repeat([]byte("fedcba9876543210"), 64)...),
+		"C":      append([]byte("C"), bytes.Repeat([]byte{0x00, 0xff, 0x0a, 0x0d}, 256)...),
 		"Ashort": []byte("A"),
 		"B2":     []byte("BA"),
 	}
